@@ -39,7 +39,7 @@ Proof. intros Hfm. induction todo as [|a r IH]; intros pre post Ht; [reflexivity
   apply Forall_cons_iff in Ht as [Ha Hr]. destruct (step_facts pcs a Ha) as (E1 & E2 & _ & _ & Hb).
   cbn [length band_loop app]. rewrite rd_app_r0. change (rd (a :: r ++ post) 0) with (Some a). cbv iota zeta.
   rewrite E1, wr_app, E2. rewrite rd_ok by (rewrite Z.shiftr_div_pow2 by lia; change (2 ^ 3) with 8; lia).
-  cbn [loop_spec]. unfold supported at 1. rewrite Z.shiftr_div_pow2 by lia. change (2 ^ 3) with 8.
+  cbn [loop_spec]. unfold supported. rewrite Z.shiftr_div_pow2 by lia. change (2 ^ 3) with 8.
   rewrite <- (bit_test (zn fm (bidx pcs a / 8)) (bidx pcs a)) by lia.
   destruct (Z.land (zn fm (bidx pcs a / 8)) (Z.shiftl 1 (Z.land (bidx pcs a) 7)) =? 0); cbn [negb]; [reflexivity|].
   replace (pre ++ conv pcs a :: r ++ post) with ((pre ++ [conv pcs a]) ++ r ++ post) by (rewrite <- app_assoc; reflexivity).
